@@ -1,6 +1,10 @@
 package hsms
 
-import "github.com/puzpuzpuz/xsync/v3"
+import (
+	"sync"
+
+	"github.com/puzpuzpuz/xsync/v3"
+)
 
 // replyResult carries the outcome of a pending reply: either a decoded reply
 // Message or an error (T3 timeout, connection closed, etc.).
@@ -21,16 +25,26 @@ type replyResult struct {
 // close(ch) is intentionally absent everywhere: this makes the F5
 // "send on closed channel" panic class structurally unreachable.
 type replyRegistry struct {
-	m *xsync.MapOf[[4]byte, chan replyResult]
+	m *xsync.MapOf[[4]byte, *replyEntry]
 	// data holds the keys whose waiter is a DATA transaction (markData). A non-data message that
 	// carries such a key is nobody's reply: route reports a miss for it instead of parking it in
 	// the waiter's one-slot buffer, where it would make the genuine reply look like a duplicate.
 	data *xsync.MapOf[[4]byte, struct{}]
 }
 
+// replyEntry is one registration: the sender-owned channel plus the seal that makes withdrawing it
+// atomic with respect to route. Once deregister has sealed an entry, route can no longer park a
+// result in its channel — a reply that loses the race against the end of the sender's wait is a
+// MISS (it goes to the handlers), never a message stranded in an abandoned buffer.
+type replyEntry struct {
+	mu     sync.Mutex
+	sealed bool
+	ch     chan replyResult
+}
+
 // newReplyRegistry returns an initialised replyRegistry ready for use.
 func newReplyRegistry() replyRegistry {
-	return replyRegistry{m: xsync.NewMapOf[[4]byte, chan replyResult](), data: xsync.NewMapOf[[4]byte, struct{}]()}
+	return replyRegistry{m: xsync.NewMapOf[[4]byte, *replyEntry](), data: xsync.NewMapOf[[4]byte, struct{}]()}
 }
 
 // register allocates a buffered reply channel for key, stores it, and returns
@@ -38,7 +52,7 @@ func newReplyRegistry() replyRegistry {
 // defer) when the send operation completes or is abandoned.
 func (r replyRegistry) register(key [4]byte) chan replyResult {
 	ch := make(chan replyResult, 1)
-	r.m.Store(key, ch)
+	r.m.Store(key, &replyEntry{ch: ch})
 
 	return ch
 }
@@ -46,6 +60,13 @@ func (r replyRegistry) register(key [4]byte) chan replyResult {
 // deregister removes the channel associated with key from the registry.
 // Called by the sender as a deferred cleanup — the channel is NOT closed here.
 func (r replyRegistry) deregister(key [4]byte) {
+	// Seal before deleting: a route that already loaded this entry either completed its send before
+	// the seal (the sender's final drain sees the result) or observes the seal and reports a miss.
+	if en, ok := r.m.Load(key); ok {
+		en.mu.Lock()
+		en.sealed = true
+		en.mu.Unlock()
+	}
 	r.m.Delete(key)
 	if r.data != nil {
 		r.data.Delete(key)
@@ -65,7 +86,7 @@ func (r replyRegistry) markData(key [4]byte) {
 // On hit, if the channel is already full (a duplicate reply raced in) the
 // result is silently discarded via the default branch — no block, no panic.
 func (r replyRegistry) route(key [4]byte, res replyResult) bool {
-	ch, ok := r.m.Load(key)
+	en, ok := r.m.Load(key)
 	if !ok {
 		return false
 	}
@@ -80,8 +101,14 @@ func (r replyRegistry) route(key [4]byte, res replyResult) bool {
 		}
 	}
 
+	en.mu.Lock()
+	defer en.mu.Unlock()
+	if en.sealed {
+		return false // the sender has ended its wait: nobody would ever read the channel
+	}
+
 	select {
-	case ch <- res:
+	case en.ch <- res:
 	default:
 	}
 
